@@ -88,10 +88,13 @@ contract(T + "._apply_gate_logic", "C07",
              "outputs-recorded": "result.executor_output is z_out and result.assessor_output is y_out",
          })
 
-contract(T + "._get_cache_key", "C07", requires=["encodable(prompt)"], raises=[],
+# the identity of the hash is taken from the code (the statement only needs "a collision-free function of exactly this prompt"): a failure of
+# these clauses is a violation only with a replayed cache confusion (native_replay below), otherwise undecided -- e.g. a change of algorithm
+CODE_DERIVED = {"unconfirmed": "undecided"}
+contract(T + "._get_cache_key", "C07", requires=["encodable(prompt)"], raises=[], options=CODE_DERIVED,
          ensures={"is-md5-prefix": "result == cache_key(prompt)"})
 
-contract(T + "._check_cache", "C07",
+contract(T + "._check_cache", "C07", options=CODE_DERIVED,
          requires=["encodable(prompt)"], raises=[], inline=False, returns="opt:obj:LoopResult",
          modifies=["self._cache"],
          ensures={
@@ -100,7 +103,7 @@ contract(T + "._check_cache", "C07",
              "hit-is-fresh": "implies(result is not None, clock_last() - old(self)._cache[cache_key(prompt)][1] < self.cache_ttl)",
          })
 
-contract(T + "._cache_result", "C07",
+contract(T + "._cache_result", "C07", options=CODE_DERIVED,
          requires=["encodable(prompt)"], raises=[], inline=False, returns="none",
          modifies=["self._cache"],
          ensures={
@@ -222,3 +225,33 @@ def old_state_after_check(o, s):
     """an intentional block leaves the breaker where _check_circuit put it: OPEN->HALF_OPEN only via an admitted probe"""
     return (s._circuit_state if (o._circuit_state == CircuitState.OPEN and s._circuit_state == CircuitState.HALF_OPEN)
             else o._circuit_state)
+
+
+def native_replay(rep):
+    """cache obligations speak about hashes (uninterpreted in the proof): the witness is searched for with prompt pairs that differ only in
+    case / spacing / one character, through the real run(); every other obligation uses the default state replay (return None)"""
+    tgt = rep.get("target", "")
+    if not any(tgt.endswith(x) for x in ("._get_cache_key", "._check_cache", "._cache_result")):
+        return None
+    import io, contextlib, hashlib
+    from operon_ai.topology.loops import CoherentFeedForwardLoop
+    from operon_ai.state.metabolism import ATP_Store
+    pairs = [("Run Report", "run report"), ("rm  -rf /tmp/build", "rm -rf /tmp/build"), ("a b", "a  b"), ("A", "a"), ("hello", "hello "), ("x", "y"), ("", " ")]
+    n = 0
+    for a, b in pairs:
+        for first, second in ((a, b), (b, a)):
+            n += 1
+            with contextlib.redirect_stdout(io.StringIO()):
+                loop = CoherentFeedForwardLoop(budget=ATP_Store(budget=10000, silent=True), silent=True)
+                k1, k2 = loop._get_cache_key(first), loop._get_cache_key(second)
+                fresh = CoherentFeedForwardLoop(budget=ATP_Store(budget=10000, silent=True), silent=True).run(second)
+                loop.run(first)
+                r2 = loop.run(second)
+            if k1 == k2:
+                return {"confirmed": True, "found_by": f"prompt pairs ({n})",
+                        "observed": f"distinct prompts {first!r} and {second!r} share the cache key {k1}: run({second!r}) after run({first!r}) is answered from the cache "
+                                    f"(cached={r2.cached}, blocked={r2.blocked}; a fresh loop answers blocked={fresh.blocked})"}
+            if r2.cached or r2.blocked != fresh.blocked:
+                return {"confirmed": True, "found_by": f"prompt pairs ({n})",
+                        "observed": f"run({second!r}) after run({first!r}): cached={r2.cached}, blocked={r2.blocked}; a fresh loop answers blocked={fresh.blocked}"}
+    return {"confirmed": False, "observed": f"no cache confusion among {n} prompt pairs"}
